@@ -223,8 +223,8 @@ func c16Check(c c16Case, env *c16Env, e *vsched.Exec, obs *c16Obs) (out []ev.Vio
 	}
 	sort.Strings(locs)
 	for _, k := range locs {
-		loc := strings.SplitN(k, ":", 2)[0]
-		add("C16:race:"+loc, e.Races[k])
+		// k = "<location>:<kind>@<file>:<func>|<kind>@<file>:<func>" - the signature names the two racing sites
+		add("C16:race:"+k, e.Races[k])
 	}
 	if len(e.Panics) > 0 {
 		return
